@@ -635,3 +635,21 @@ def canonical_tests(node):
         ast.fix_missing_locations(new)
         hit = _canon_cache[key] = (node, new)
     return hit[1]
+
+
+def private_names(repo):
+    """every identifier with one leading underscore that the library defines: attributes that are
+    stored, functions / methods, module-level and class-level names"""
+    out = set()
+    for m in repo.modules.values():
+        for n in ast.walk(m.tree):
+            name = None
+            if isinstance(n, ast.Attribute) and isinstance(n.ctx, ast.Store):
+                name = n.attr
+            elif isinstance(n, (ast.FunctionDef, ast.ClassDef)):
+                name = n.name
+            elif isinstance(n, ast.Name) and isinstance(n.ctx, ast.Store):
+                name = n.id
+            if name and name.startswith("_") and not name.startswith("__"):
+                out.add(name)
+    return out
